@@ -142,8 +142,16 @@ func (r *Runner) MineChained(parent int) (id int, ok bool, err error) {
 	if err != nil {
 		return -1, false, err
 	}
-	r.craftExtra, r.craftNeeds = []*types.Transaction{tx2}, tx1.Hash()
-	defer func() { r.craftExtra = nil }()
+	r.craftExtra, r.craftNeeds, r.craftAdversarial = []*types.Transaction{tx2}, tx1.Hash(), false
+	if r.R.Intn(3) == 0 && src.Denom >= 3 {
+		// adversarial: a third transaction spends the SAME same-block output again (to another address); no node may execute this
+		tx3, err := wallet.QiTx(e.Signer, e.ChainID, []wallet.In{{Out: types.OutPoint{TxHash: tx1.Hash(), Index: 0}, Key: dst}},
+			[]types.TxOut{{Denomination: src.Denom - 3, Address: owner.Addr.Bytes()}}, nil, nil)
+		if err == nil {
+			r.craftExtra, r.craftAdversarial = []*types.Transaction{tx2, tx3}, true
+		}
+	}
+	defer func() { r.craftExtra, r.craftAdversarial = nil, false }()
 	id, err = r.MineOn(parent, mininet.Zone)
 	if err != nil {
 		return -1, false, err
